@@ -4,7 +4,7 @@ export GOFLAGS=-mod=mod GOPROXY=off GOSUMDB=off GOTOOLCHAIN=local
 f=$1; t=$2; pkg=${3:-.}
 ov=$(mktemp /tmp/ov.XXXXXX.json)
 printf '{"Replace":{"%s/%s":"%s"}}' "$(cd /repo/$pkg && pwd)" "zz_govc_demo_test.go" "$(readlink -f $f)" > $ov
-(cd /repo && go test -overlay $ov -vet=off -count=1 -timeout 120s -run "$t" ./$pkg)
+(cd /repo && go test -overlay $ov -vet=off -count=1 -v -timeout 120s -run "$t" ./$pkg)
 rc=$?
 rm -f $ov
 exit $rc
